@@ -85,8 +85,9 @@ extern ssize_t mpt_message_argv(MPT_STRUCT(message) *msg, int sep)
 		}
 		msg->base = curr.iov_base = ((uint8_t *) cont->iov_base) + part;
 		msg->used = curr.iov_len  = cont->iov_len - part;
-		msg->cont = cont;
-		msg->clen = clen;
+		/* trimmed part is current data now */
+		msg->cont = ++cont;
+		msg->clen = --clen;
 	}
 	/* find space character not in escapes */
 	if (!isgraph(sep)) {
